@@ -230,9 +230,9 @@ func installConfigFlags(flag plugin.FlagSet, cfg *config) func() error {
 				}
 				setter = func() {
 					var set []string
-					for k, v := range bools {
-						if *v {
-							set = append(set, k)
+					for _, choice := range field.choices {
+						if *bools[choice] {
+							set = append(set, choice)
 						}
 					}
 					switch len(set) {
